@@ -1,6 +1,6 @@
 // Line-protocol interpreter for the real tulz::RingBuffer (compiled from the working tree).
 // Reads `rb <op> <args…>` lines on stdin and prints one canonical line per operation, in the
-// same format as the Lean driver (lean/Tulz/Drv/Rb.lean).  Built with -DELEM_LONG it runs
+// same format as the Lean driver (lean/Tulz/Drv/Rb.lean).  Built with -DELEM_LONG (or -DELEM_DOUBLE) it runs
 // RingBuffer<long, ·> (no lifetime information), otherwise RingBuffer<verif::Tracked, ·>.
 #include <tulz/container/RingBuffer.h>
 
@@ -16,12 +16,25 @@
 
 using verif::reg;
 
-#ifdef ELEM_LONG
+#if defined(ELEM_LONG)
 using Elem = long;
 static long valueOf(const Elem &e) { return e; }
+static Elem mk(long v) { return v; }
+static long mkArg(long v) { return v; }
+#elif defined(ELEM_DOUBLE)
+// an arithmetic type in which equal values need not be bitwise equal: protocol value 0 is stored alternately as -0.0 and
+// +0.0 (both ARE the value 0: a bounded deque of doubles holding them compares equal)
+#define ELEM_LONG 1
+using Elem = double;
+static long valueOf(const Elem &e) { return (long) e; }
+static long g_zeroes = 0;
+static Elem mk(long v) { return v == 0 ? ((++g_zeroes & 1) ? -0.0 : 0.0) : (double) v; }
+static double mkArg(long v) { return mk(v); }
 #else
 using Elem = verif::Tracked;
 static long valueOf(const Elem &e) { return e.value(); }
+static Elem mk(long v) { return verif::Tracked(v); }
+static long mkArg(long v) { return v; }
 #endif
 
 using RB0 = tulz::RingBuffer<Elem, false>;
@@ -92,12 +105,12 @@ static std::string run(const std::vector<std::string> &t) {
             using RB = typename decltype(tag)::type;
             // the temporaries of the initializer_list die at the end of the full expression
             switch (v.size()) {
-                case 1: return dflt ? new RB({Elem(v[0])}) : new RB({Elem(v[0])}, cap);
-                case 2: return dflt ? new RB({Elem(v[0]), Elem(v[1])}) : new RB({Elem(v[0]), Elem(v[1])}, cap);
-                case 3: return dflt ? new RB({Elem(v[0]), Elem(v[1]), Elem(v[2])})
-                                    : new RB({Elem(v[0]), Elem(v[1]), Elem(v[2])}, cap);
-                default: return dflt ? new RB({Elem(v[0]), Elem(v[1]), Elem(v[2]), Elem(v[3])})
-                                     : new RB({Elem(v[0]), Elem(v[1]), Elem(v[2]), Elem(v[3])}, cap);
+                case 1: return dflt ? new RB({mk(v[0])}) : new RB({mk(v[0])}, cap);
+                case 2: return dflt ? new RB({mk(v[0]), mk(v[1])}) : new RB({mk(v[0]), mk(v[1])}, cap);
+                case 3: return dflt ? new RB({mk(v[0]), mk(v[1]), mk(v[2])})
+                                    : new RB({mk(v[0]), mk(v[1]), mk(v[2])}, cap);
+                default: return dflt ? new RB({mk(v[0]), mk(v[1]), mk(v[2]), mk(v[3])})
+                                     : new RB({mk(v[0]), mk(v[1]), mk(v[2]), mk(v[3])}, cap);
             }
         };
         if (o.ow) o.b = make(std::type_identity<RB1>{}); else o.a = make(std::type_identity<RB0>{});
@@ -115,10 +128,10 @@ static std::string run(const std::vector<std::string> &t) {
     }
     Obj &o = store.at(num(1));
 
-    if (op == "pb") return with(o, [&](auto &rb) { long v = num(2); Elem &r = rb.push_back(Elem(v)); std::string s = "v=" + std::to_string(valueOf(r)); return finish(s); });
-    if (op == "pf") return with(o, [&](auto &rb) { long v = num(2); Elem &r = rb.push_front(Elem(v)); std::string s = "v=" + std::to_string(valueOf(r)); return finish(s); });
-    if (op == "eb") return with(o, [&](auto &rb) { Elem &r = rb.emplace_back(num(2)); std::string s = "v=" + std::to_string(valueOf(r)); return finish(s); });
-    if (op == "ef") return with(o, [&](auto &rb) { Elem &r = rb.emplace_front(num(2)); std::string s = "v=" + std::to_string(valueOf(r)); return finish(s); });
+    if (op == "pb") return with(o, [&](auto &rb) { long v = num(2); Elem &r = rb.push_back(mk(v)); std::string s = "v=" + std::to_string(valueOf(r)); return finish(s); });
+    if (op == "pf") return with(o, [&](auto &rb) { long v = num(2); Elem &r = rb.push_front(mk(v)); std::string s = "v=" + std::to_string(valueOf(r)); return finish(s); });
+    if (op == "eb") return with(o, [&](auto &rb) { Elem &r = rb.emplace_back(mkArg(num(2))); std::string s = "v=" + std::to_string(valueOf(r)); return finish(s); });
+    if (op == "ef") return with(o, [&](auto &rb) { Elem &r = rb.emplace_front(mkArg(num(2))); std::string s = "v=" + std::to_string(valueOf(r)); return finish(s); });
     // aliasing pushes: the argument refers to an element of the buffer itself (push_back(rb[i]) is valid use)
     if (op == "pbs") return with(o, [&](auto &rb) { Elem &r = rb.push_back(rb[(size_t) num(2)]); std::string s = "v=" + std::to_string(valueOf(r)); return finish(s); });
     if (op == "pfs") return with(o, [&](auto &rb) { Elem &r = rb.push_front(rb[(size_t) num(2)]); std::string s = "v=" + std::to_string(valueOf(r)); return finish(s); });
